@@ -270,6 +270,11 @@ func scenarios(thorough bool) []sched.Scenario {
 		`count_over_time({a="b"} | json [5s]) > 1`,
 	}
 	var out []sched.Scenario
+	// a stage error in the MIDDLE of the result set: the aggregator gives up at its 2001st series while the scanner
+	// still has batches to deliver (the only run-time stage error left since unparsable lines are no longer fatal)
+	for _, cancel := range []bool{false, true} {
+		out = append(out, &scenario{c: cfg{Query: `count_over_time({a="b"} | json [5s])`, Rows: 2250, Limit: 100, StepMs: 5000, Cancel: cancel, Series: 2250}})
+	}
 	for _, q := range queries {
 		for _, rows := range []int{3, 101} {
 			for _, limit := range []int64{1, 100} {
